@@ -56,6 +56,52 @@ POOL = [None, 0, 0.0, 4, 4.0, 5, 5.0, -1, 2.5, True, 1.0, 1, 'unix', 'dos', 'mac
         {}, {'k': 'v'}, (), object, 1 << 70, 'é']
 
 
+# values that ARE of the declared type without being of the exact built-in
+# class: subclass instances, enum members with a str / int mix-in,
+# OrderedDict. A stored value must still be "of the declared type and
+# allowed choice" (checked on what is read back).
+import collections
+import enum
+
+
+class StrSub(str):
+    pass
+
+
+class IntSub(int):
+    pass
+
+
+class BytesSub(bytes):
+    pass
+
+
+class LE(str, enum.Enum):
+    UNIX = 'unix'
+    DOS = 'dos'
+    MAC = 'mac'
+
+
+class Misc(str, enum.Enum):
+    PLAIN = 'text/plain'
+    HTML = 'text/html'
+    JSON = 'json'
+    BINARY = 'binary'
+    V1 = '1.0'
+    UTF8 = 'utf-8'
+
+
+class Num(enum.IntEnum):
+    FOUR = 4
+
+
+POOL += [StrSub('unix'), StrSub('mac'), StrSub('json'), StrSub('binary'),
+         StrSub('1.0'), StrSub('utf-8'), StrSub('text/plain'), StrSub(''),
+         LE.UNIX, LE.DOS, LE.MAC, Misc.PLAIN, Misc.HTML, Misc.JSON,
+         Misc.BINARY, Misc.V1, Misc.UTF8, IntSub(4), Num.FOUR,
+         BytesSub(b'bytes\n'), collections.OrderedDict([('z', 1), ('a', 2)])]
+
+
 def declared(owner_cls, attr):
     """(type, choices) for attribute ``attr`` of a section class."""
     name = attr
@@ -159,6 +205,10 @@ def check_assignments(spec, seed, obs):
                     if got is not v and got != v:
                         obs.violation('valid_value_not_stored:%s' % attr,
                                       case, repr(got)[:100])
+                    elif not is_valid(decl, got):
+                        obs.violation('stored_value_not_of_declared_type_or_'
+                                      'choice:%s' % attr, case,
+                                      repr(got)[:100])
                     # only this one spot may differ
                     setattr(sec, attr, v)
                     if not treesnap.equal(after, treesnap.snapshot(tree)):
@@ -303,6 +353,16 @@ def perturbations(value):
     return [v for v in out if v != value]
 
 
+META_PAIRS = [
+    ({'k': [1, 2]}, {'k': (1, 2)}), ({1: 'x'}, {'1': 'x'}),
+    ({'k': 1}, {'k': '1'}), ({'k': True}, {'k': 'true'}),
+    ({'k': None}, {'k': 'null'}), ({'k': 1.5}, {'k': '1.5'}),
+    ({'k': {'n': 7}}, {'k': {'n': '7'}}), ({'k': 'a'}, {'k': b'a'}),
+    ({'k': ''}, {'k': None}), ({'k': []}, {'k': {}}),
+    ({'k': 'e\u0301'}, {'k': '\xe9'}), ({'a': 1, 'b': 2}, {'a': 1, 'B': 2}),
+]
+
+
 def perturb(value):
     if isinstance(value, bool):
         return 'changed'
@@ -422,6 +482,40 @@ def check_equality(spec, seed, obs, other_tree=None):
         if not (a == b):
             obs.violation('restore_failed(harness)', case)
             return
+    # content that differs only in ways a serialised form would hide
+    secs_a = sections_of(a)
+    for idx, (kind, sec) in enumerate(secs):
+        if getattr(type(sec), 'data_type', None) is not dict:
+            continue
+        sa = secs_a[idx][1]
+        keep_a, keep_b = sa.content, sec.content
+        for va, vb in META_PAIRS:
+            try:
+                sa.content = copy.deepcopy(va)
+                sec.content = copy.deepcopy(vb)
+            except Exception:
+                continue
+            obs.count('perturbations_checked')
+            obs.case(('pair', seed, idx, repr(va)), nontrivial=True)
+            if a == b or not (a != b) or b == a:
+                obs.violation('perturbation_leaves_trees_equal:%s:'
+                              'content_denotation' % kind,
+                              dict(case, section_index=idx),
+                              {'a': repr(va), 'b': repr(vb)})
+        try:
+            if keep_a is not None:
+                sa.content = keep_a
+                sec.content = keep_b
+            else:
+                object.__setattr__(sa, '_content', None)
+                object.__setattr__(sec, '_content', None)
+        except Exception:
+            return
+        break
+    if not (a == b):
+        # could not restore through the public API
+        obs.count('perturbation_pair_abandoned(no restore)')
+        return
     # structural perturbations
     if b.changes:
         extra = b.add_change()
